@@ -64,7 +64,7 @@ Definition ends_clean (p : program) : bool :=
   | a :: _ => Nat.eqb (a_target a) F_AUX && Nat.eqb (a_fun a) FN_CLEAN && match a_reads a with [] => true | _ => false end
   | [] => false
   end.
-Definition hop_ok (o : hop) : Prop := match o with Edit _ => True | Calc p => ends_clean p = true end.
+Definition hop_ok (o : hop) : Prop := match o with Edit _ => True | Calc p => leaves_clean p = true end.
 
 Lemma exec_app sem T p1 p2 C : exec sem T (p1 ++ p2) C = exec sem T p2 (exec sem T p1 C).
 Proof. revert C. induction p1 as [|a r IH]; intros C; cbn; [reflexivity|apply IH]. Qed.
@@ -86,13 +86,26 @@ Proof.
   rewrite forallb_forall in H. apply Nat.eqb_eq. now apply H.
 Qed.
 
+Lemma lc_from_aux sem T p : forall b C, (b = true -> C F_AUX = sem FN_CLEAN []) -> lc_from b p = true ->
+  exec sem T p C F_AUX = sem FN_CLEAN [].
+Proof.
+  induction p as [|a r IH]; intros b C Hb H; cbn [exec lc_from] in *; [now apply Hb|].
+  refine (IH _ _ _ H). clear IH H. unfold setc.
+  destruct (Nat.eqb (a_target a) F_AUX) eqn:E.
+  - apply Nat.eqb_eq in E. rewrite E, Nat.eqb_refl. intros H. apply andb_true_iff in H. destruct H as [H1 H2].
+    apply Nat.eqb_eq in H1. destruct (a_reads a); [|discriminate]. now rewrite H1.
+  - intros H. rewrite Nat.eqb_sym in E. rewrite E. now apply Hb.
+Qed.
+Lemma leaves_clean_aux sem T p C : leaves_clean p = true -> C F_AUX = sem FN_CLEAN [] -> exec sem T p C F_AUX = sem FN_CLEAN [].
+Proof. intros L H. apply (lc_from_aux sem T p true C); auto. Qed.
+
 Lemma hrun_aux sem ops : forall T C, Forall hop_ok ops -> C F_AUX = sem FN_CLEAN [] ->
   snd (hrun sem ops T C) F_AUX = sem FN_CLEAN [].
 Proof.
   induction ops as [|o r IH]; intros T C F H; [exact H|].
   inversion F as [|? ? Ho Fr]; subst. destruct o as [f|p]; cbn [hrun].
   - now apply IH.
-  - apply IH; [exact Fr|]. now apply ends_clean_aux.
+  - apply IH; [exact Fr|]. now apply leaves_clean_aux.
 Qed.
 
 (* after ANY history (edits, calculations of any kind that leave the tracking state empty) a calculation whose only
@@ -148,6 +161,102 @@ Proof.
   split; [reflexivity|]. vm_compute. discriminate.
 Qed.
 
+(* ---- short circuit, three-phase power flow, state estimation *)
+Lemma exec_not_written sem T p : forall C c, ~ In c (writes p) -> exec sem T p C c = C c.
+Proof.
+  induction p as [|a r IH]; intros C c H; cbn [exec]; [reflexivity|].
+  rewrite IH; [|intros Hin; apply H; now right]. unfold setc.
+  destruct (Nat.eqb c (a_target a)) eqn:E; [|reflexivity]. apply Nat.eqb_eq in E. exfalso. apply H. left. now symmetry.
+Qed.
+
+(* a calculation = front ++ tail: every field the front computes and the tail does not touch is independent of the
+   history as soon as the front reads nothing but the tracking state before writing it *)
+Theorem history_independent_front sem ops p1 p2 T C C0 :
+  forallb (fun c => Nat.eqb c F_AUX) (rbw p1) = true -> Forall hop_ok ops ->
+  C F_AUX = sem FN_CLEAN [] -> C0 F_AUX = sem FN_CLEAN [] ->
+  forall c, In c (writes p1) -> ~ In c (writes p2) ->
+  exec sem (fst (hrun sem ops T C)) (p1 ++ p2) (snd (hrun sem ops T C)) c = exec sem (fst (hrun sem ops T C)) (p1 ++ p2) C0 c.
+Proof.
+  intros Fp Fo HC HC0 c Hc Hn. rewrite !exec_app, !(exec_not_written _ _ p2 _ c Hn).
+  apply exec_agree; [|exact Hc].
+  intros x Hx. rewrite forallb_forall in Fp. apply Fp in Hx. apply Nat.eqb_eq in Hx. subst x.
+  rewrite HC0. now apply hrun_aux.
+Qed.
+
+Definition sc_fields : list nat := [F_OPTIONS; F_RES_SC; F_IS_ELEMENTS; F_SWITCH_INFO; F_LOOKUPS; F_LK_GEN; F_ISOLATED; F_PPC].
+Definition est_fields : list nat := [F_OPTIONS; F_IS_ELEMENTS; F_SWITCH_INFO; F_LOOKUPS; F_LK_GEN; F_ISOLATED; F_PPC; F_RES_EST].
+
+Theorem sc_history_independent sem ops T C C0 :
+  Forall hop_ok ops -> C F_AUX = sem FN_CLEAN [] -> C0 F_AUX = sem FN_CLEAN [] ->
+  forall c, In c sc_fields ->
+  exec sem (fst (hrun sem ops T C)) (prog_sc true false) (snd (hrun sem ops T C)) c =
+  exec sem (fst (hrun sem ops T C)) (prog_sc true false) C0 c.
+Proof.
+  intros Fo HC HC0 c Hc. unfold prog_sc. apply history_independent_front; auto.
+  - unfold sc_fields in Hc. cbn in Hc. vm_compute. intuition (subst; auto 20).
+  - unfold sc_fields in Hc. cbn in Hc. vm_compute. intuition (subst; discriminate).
+Qed.
+
+Lemma frame_ok_pf3ph : frame_ok (prog_pf3ph true) = true. Proof. vm_compute. reflexivity. Qed.
+
+Theorem est_history_independent sem ops T C C0 :
+  Forall hop_ok ops -> C F_AUX = sem FN_CLEAN [] -> C0 F_AUX = sem FN_CLEAN [] ->
+  forall c, In c est_fields ->
+  exec sem (fst (hrun sem ops T C)) (prog_est true false) (snd (hrun sem ops T C)) c =
+  exec sem (fst (hrun sem ops T C)) (prog_est true false) C0 c.
+Proof.
+  intros Fo HC HC0 c Hc. rewrite <- (app_nil_r (prog_est true false)). apply history_independent_front; auto.
+  unfold est_fields in Hc. cbn in Hc. vm_compute. intuition (subst; auto 20).
+Qed.
+
+(* estimate with the bus-bus switch substitution starts with complete power flows: everything it writes is independent *)
+Theorem est_bb_history_independent sem ops T C C0 :
+  Forall hop_ok ops -> C F_AUX = sem FN_CLEAN [] -> C0 F_AUX = sem FN_CLEAN [] ->
+  forall c, In c (writes (prog_est_bb true)) ->
+  exec sem (fst (hrun sem ops T C)) (prog_est_bb true) (snd (hrun sem ops T C)) c =
+  exec sem (fst (hrun sem ops T C)) (prog_est_bb true) C0 c.
+Proof.
+  intros Fo HC HC0 c Hc. rewrite <- (app_nil_r (prog_est_bb true)). apply history_independent_front; auto.
+Qed.
+
+(* every modelled calculation leaves the tracking state empty, so all of them may occur in the histories *)
+Lemma leaves_clean_all :
+  forallb leaves_clean [prog_pf; prog_pf_results; prog_opf; prog_opf_old; prog_sc true false; prog_sc false false;
+                        prog_sc true true; prog_sc false true; prog_pf3ph true; prog_pf3ph false; prog_est true false;
+                        prog_est false false; prog_est true true; prog_est false true; prog_est_bb true; prog_est_bb false] = true.
+Proof. vm_compute. reflexivity. Qed.
+
+Lemma rbw_sets_x :
+  rbw (prog_sc true false) = [F_AUX; F_RES_OTHER] /\ rbw (prog_sc false false) = [F_AUX; F_LK_GEN; F_RES_OTHER] /\
+  rbw (sc_front true false) = [F_AUX] /\
+  rbw (prog_sc true true) = [F_OPTIONS; F_AUX; F_RES_BUS; F_RES_OTHER; F_RES_OTHER] /\
+  rbw (prog_pf3ph true) = [F_AUX] /\ rbw (prog_pf3ph false) = [F_LK_GEN; F_AUX] /\
+  rbw (prog_est true false) = [] /\ rbw (prog_est false false) = [F_LK_GEN] /\
+  rbw (prog_est true true) = [F_RES_BUS; F_RES_BUS; F_RES_OTHER] /\
+  rbw (prog_est_bb true) = [F_AUX] /\ rbw (prog_est_bb false) = [F_AUX; F_LK_GEN].
+Proof. vm_compute. auto 20. Qed.
+
+(* when a kind of generating element has no in-service element its lookup of the previous calculation is read:
+   the dependence is real in the model (for the three calculations that do not clear the lookups) *)
+Lemma stale_gen_lookup_depends :
+  exists sem T C1 C2, C1 F_AUX = C2 F_AUX /\
+    exec sem T (prog_sc false false) C1 F_RES_SC <> exec sem T (prog_sc false false) C2 F_RES_SC /\
+    exec sem T (prog_pf3ph false) C1 F_RES_3PH <> exec sem T (prog_pf3ph false) C2 F_RES_3PH /\
+    exec sem T (prog_est false false) C1 F_RES_EST <> exec sem T (prog_est false false) C2 F_RES_EST.
+Proof.
+  exists (fun f args => fold_left Z.add args (Z.of_nat f)), (fun _ => 0%Z), (fun _ => 0%Z),
+         (fun c => if Nat.eqb c F_LK_GEN then 1%Z else 0%Z).
+  split; [reflexivity|]. vm_compute. repeat split; discriminate.
+Qed.
+(* ... while the entries _pd2ppc always rewrites (bus, branch, aux) never carry history, whatever the kinds *)
+Lemma always_rewritten_lookups_irrelevant sem T C1 C2 (g : bool) :
+  (forall c, c <> F_LOOKUPS -> C1 c = C2 c) ->
+  forall c, In c (writes (prog_pf3ph g)) -> exec sem T (prog_pf3ph g) C1 c = exec sem T (prog_pf3ph g) C2 c.
+Proof.
+  intros H c Hc. apply exec_agree; [|exact Hc]. intros x Hx. apply H. intros ->.
+  destruct g; vm_compute in Hx; intuition discriminate.
+Qed.
+
 (* ------------------------------------------------------------------ Part 2 *)
 Open Scope Q_scope.
 
@@ -195,6 +304,35 @@ Proof.
   - unfold start_vm_old. now rewrite S, P.
   - apply filter_In. auto.
 Qed.
+
+(* auxiliary buses: with the element buses in range every entry is a number, whatever the result tables contain *)
+Theorem start_vector_aux_defined bs axs : aux_wf bs axs = true -> defined (start_vector_aux bs axs) = true.
+Proof.
+  intros W. unfold start_vector_aux, defined. rewrite forallb_app. apply andb_true_iff. split.
+  - apply start_vector_defined.
+  - unfold aux_wf in W. induction axs as [|a r IH]; cbn in *; [reflexivity|].
+    apply andb_true_iff in W. destruct W as [W1 W2]. destruct (a_kept a); cbn; [|now apply IH].
+    rewrite (IH W2), andb_true_r. apply Nat.ltb_lt in W1. apply nth_error_Some in W1.
+    unfold aux_vm, aux_va. destruct (nth_error bs (a_bus a)) as [b|]; [|contradiction].
+    unfold init_vm, init_va, flat.
+    destruct (a_set_vm a), (a_prev_vm a), (a_prev_va a), (b_prev_vm b), (b_prev_va b); reflexivity.
+Qed.
+(* an auxiliary bus with a previous internal voltage starts there; one without starts where its element bus starts *)
+Theorem aux_start_spec bs a b : nth_error bs (a_bus a) = Some b -> a_set_vm a = None ->
+  (forall v, a_prev_vm a = Some v -> aux_vm bs a = Some v) /\
+  (a_prev_vm a = None -> aux_vm bs a = init_vm b) /\
+  (forall v, a_prev_va a = Some v -> aux_va bs a = Some v) /\
+  (a_prev_va a = None -> aux_va bs a = init_va b).
+Proof.
+  intros N S. unfold aux_vm, aux_va. rewrite N, S. repeat split; intros; try rewrite H; reflexivity.
+Qed.
+Example nonvacuous_aux :
+  start_vector_aux feeder
+    [ {| a_prev_vm := None; a_prev_va := None; a_bus := 2%nat; a_set_vm := None; a_kept := true |};
+      {| a_prev_vm := Some (101 # 100); a_prev_va := Some (-3 # 2); a_bus := 1%nat; a_set_vm := Some (51 # 50); a_kept := true |};
+      {| a_prev_vm := None; a_prev_va := None; a_bus := 0%nat; a_set_vm := None; a_kept := false |} ]
+  = [(Some 1, Some 0); (Some (100000328 # 100000000), Some 0); (Some 1, Some 0); (Some 1, Some 0); (Some (51 # 50), Some (-3 # 2))].
+Proof. vm_compute. reflexivity. Qed.
 
 (* buses that are not part of the solution do not matter *)
 Theorem dropped_buses_irrelevant bs : start_vector bs = start_vector (filter b_kept bs).
